@@ -309,4 +309,53 @@ theorem N1_t_Id (hc : c * c = 2) (h2 : (2:K) ≠ 0)  :
       = M3.tens3 (1 : M3 K) := by
   t4_eq hc
 
+/-! ## inverse: `A · invert(A) = invert(A) · A = 1` whenever `det A ≠ 0` -/
+theorem N3_t_invert_den (hc : c * c = 2) (h2 : (2:K) ≠ 0) (A : M3 K) :
+    Gen.N3_t_invert_den0 c c3 fn A.a00 A.a11 A.a22 A.a01 A.a10 A.a02 A.a20 A.a12 A.a21 = A.det := by
+  t4_eq hc
+theorem N3_t_invert (hc : c * c = 2) (h2 : (2:K) ≠ 0) (A : M3 K) (hd : A.det ≠ 0) :
+    A * M3.ofTens (Gen.N3_t_invert_all c c3 fn A.a00 A.a11 A.a22 A.a01 A.a10 A.a02 A.a20 A.a12 A.a21) = 1
+    ∧ M3.ofTens (Gen.N3_t_invert_all c c3 fn A.a00 A.a11 A.a22 A.a01 A.a10 A.a02 A.a20 A.a12 A.a21) * A = 1 := by
+  rw [← N3_t_invert_den c c3 fn hc h2] at hd
+  constructor <;> m3_eq hc with hd
+theorem N2_t_invert_den (hc : c * c = 2) (h2 : (2:K) ≠ 0) (A : M3 K) :
+    Gen.N2_t_invert_den0 c c3 fn A.a00 A.a11 A.a22 A.a01 A.a10 * A.a22 = (M3.plane A).det := by
+  t4_eq hc
+theorem N2_t_invert (hc : c * c = 2) (h2 : (2:K) ≠ 0) (A : M3 K) (hd : (M3.plane A).det ≠ 0) :
+    M3.plane A * M3.ofTens (pad2_9 (Gen.N2_t_invert_all c c3 fn A.a00 A.a11 A.a22 A.a01 A.a10)) = 1
+    ∧ M3.ofTens (pad2_9 (Gen.N2_t_invert_all c c3 fn A.a00 A.a11 A.a22 A.a01 A.a10)) * M3.plane A = 1 := by
+  rw [← N2_t_invert_den c c3 fn hc h2] at hd
+  have h22 : A.a22 ≠ 0 := right_ne_zero_of_mul hd
+  have hdd := left_ne_zero_of_mul hd
+  simp only [gen_simp] at hdd
+  t4_unfold
+  generalize_ne hdd => e he
+  refine ⟨⟨?_, ?_, ?_, ?_, ?_, ?_, ?_, ?_, ?_⟩, ⟨?_, ?_, ?_, ?_, ?_, ?_, ?_, ?_, ?_⟩⟩ <;> field_simp <;>
+    (try simp only [← he]) <;> ring1
+theorem N1_t_invert (hc : c * c = 2) (h2 : (2:K) ≠ 0) (A : M3 K) (hd : (M3.diag A.a00 A.a11 A.a22).det ≠ 0) :
+    M3.diag A.a00 A.a11 A.a22 * M3.ofTens (pad1_9 (Gen.N1_t_invert_all c c3 fn A.a00 A.a11 A.a22)) = 1
+    ∧ M3.ofTens (pad1_9 (Gen.N1_t_invert_all c c3 fn A.a00 A.a11 A.a22)) * M3.diag A.a00 A.a11 A.a22 = 1 := by
+  have h00 : A.a00 ≠ 0 := by intro h; apply hd; simp only [M3.diag, M3.det, h]; ring
+  have h11 : A.a11 ≠ 0 := by intro h; apply hd; simp only [M3.diag, M3.det, h]; ring
+  have h22 : A.a22 ≠ 0 := by intro h; apply hd; simp only [M3.diag, M3.det, h]; ring
+  t4_unfold
+  refine ⟨⟨?_, ?_, ?_, ?_, ?_, ?_, ?_, ?_, ?_⟩, ⟨?_, ?_, ?_, ?_, ?_, ?_, ?_, ?_, ?_⟩⟩ <;> field_simp <;> ring1
+/-- non-vacuity -/
+example : (⟨2, 1, 0, 0, 3, 1, 1, 0, 5⟩ : M3 ℚ).det ≠ 0 := by simp only [M3.det]; norm_num
+
+/-! ## polar decomposition — PARTIAL.
+Full statement (not proved): for every `F` with `det F > 0`, `polar_decomposition(R,U,F)` returns `R`
+orthogonal and `U` symmetric positive definite with `F = R·U`, in 1D/2D/3D.
+Proved: the 1D case, where the code is closed form (`R = 1`, `U = diag F`). Missing: 2D and 3D, where `U` is
+obtained from the eigenvalues of `FᵀF` (`stensor::computeEigenValues`: value-dependent branches, `acos`,
+`cos`, `sqrt` — the eigen-solver is the object of C03) and the function cannot be instantiated on the
+recording scalar (see the note in checks/C02.py). -/
+theorem N1_t_polar_partial (hc : c * c = 2) (h2 : (2:K) ≠ 0) (A : M3 K) :
+    (match Gen.N1_t_polar_all c c3 fn A.a00 A.a11 A.a22 with
+     | [u0, u1, u2, r0, r1, r2] =>
+         M3.diag r0 r1 r2 = 1 ∧ M3.diag r0 r1 r2 * M3.diag u0 u1 u2 = M3.diag A.a00 A.a11 A.a22
+     | _ => False) := by
+  t4_unfold
+  refine ⟨⟨?_, ?_, ?_⟩, ⟨?_, ?_, ?_⟩⟩ <;> first | trivial | rfl | ring1
+
 end TfelVerif.C02.Props
